@@ -205,12 +205,23 @@ class C08(Check):
         for n1, n2 in BIG:
             for kind in BIG_SETS:
                 u.append({'k': 'big', 'n1': n1, 'n2': n2, 'set': kind})
+        # NEAR ties of the nearest mobile atom (the two closest differ by 1e-7 relative in squared distance: no tie,
+        # far above rounding): one unit
+        self.bounds['near_tie_of_nearest_atom'] = 'relative gaps 1e-7, 1e-6, 1e-4 of the squared distance; sizes up to 3x4'
+        u.append({'k': 'neartie', 'n1': 3, 'n2': 4})
         # heavy units first
         u.sort(key=lambda d: -(d['n1'] * d['n2']) ** (d.get('L', 2) - len(d.get('pre', []))))
         return u
 
     def cases(self, unit, tier, seed):
         thorough = tier == 'thorough'
+        if unit['k'] == 'neartie':
+            for n1 in (1, 2, 3):
+                for n2 in (2, 3, 4):
+                    for gap in (1e-7, 1e-6, 1e-4):
+                        for restr in ([], [[0, 0]], [[n1 - 1, n2 - 1]]):
+                            yield {'k': 'neartie', 'n1': n1, 'n2': n2, 'gap': gap, 'restr': restr}
+            return
         if unit['k'] == 'lists':
             n1, n2, L, pre = unit['n1'], unit['n2'], unit['L'], unit['pre']
             pairs = [[i, j] for i in range(n1) for j in range(n2)]
@@ -224,6 +235,8 @@ class C08(Check):
     def check_case(self, case, R, seed):
         from gaddlemaps._backend import Chi2Calculator
         n1, n2 = case['n1'], case['n2']
+        if case['k'] == 'neartie':
+            return self._neartie(case, R, seed)
         if case['k'] == 'list':
             ftab, mtabs = small_tables(seed)
             fixed = ftab[:n1].copy()
@@ -392,6 +405,33 @@ class C08(Check):
                     if not (rel_diff(v2, val) <= TOL_INV):
                         R.violation(f'chi2/{path}/changes-under-relabelling', d,
                                     f'original={val!r} relabelled={v2!r}')
+
+
+    def _neartie(self, case, R, seed):
+        """Every unrestrained fixed atom has TWO mobile atoms almost equally near (squared distances d and d(1+gap)):
+        exactly one of them is its nearest atom, the other counts as far unless something else uses it."""
+        from gaddlemaps._backend import Chi2Calculator
+        n1, n2, gap, restr = case['n1'], case['n2'], case['gap'], [list(r) for r in case['restr']]
+        fixed = np.array([[0.0, 0.0, 0.0], [5.0, 0.5, -0.25], [-4.0, 6.0, 1.5]])[:n1]
+        dirs = np.array([[1.0, 0.0, 0.0], [0.0, 1.0, 0.0], [0.0, 0.0, 1.0], [0.6, 0.0, 0.8]])
+        for owner in range(n1):
+            # mobile atoms 0 and 1 sit at distances r and r*sqrt(1+gap) from fixed atom `owner`, the others further away
+            r = 0.75
+            mob = np.array([fixed[owner] + dirs[j] * r * (1.0, np.sqrt(1.0 + gap), 1.7, 2.3)[j] for j in range(n2)])
+            constr = mob[::-1] * 0.5 + 1.0            # the calculator is built with another configuration
+            d = dict(case, owner=owner)
+            try:
+                got = float(Chi2Calculator(fixed.copy(), constr.copy(), [list(x) for x in restr])(mob.copy()))
+            except Exception as exc:
+                R.case(d, nontrivial=True, outcome='exception', cls='neartie')
+                R.violation('chi2/neartie/exception', d, repr(exc))
+                continue
+            a, b, k, _ = ref_parts(fixed, mob, restr)
+            want = (a + b) * 1.1 ** k
+            R.case(d, nontrivial=True, outcome=f'k={k}', cls=f'neartie/gap{gap:g}')
+            if not rel_diff(got, want) <= TOL_REF:
+                R.violation('chi2/neartie/differs-from-reference', d,
+                            f'calculator={got!r} reference={want!r} (k={k}, relative gap of the two nearest {gap:g})')
 
 
 CHECK = C08()
